@@ -24,10 +24,10 @@ import (
 	"github.com/gokrazy/rsync/internal/sender"
 )
 
-func Checksum1(buf []byte) uint32              { return rsyncchecksum.Checksum1(buf) }
-func Checksum2(seed int32, buf []byte) []byte  { return rsyncchecksum.Checksum2(seed, buf) }
-func Tag(sum uint32) uint16                    { return rsyncchecksum.Tag(sum) }
-func SumSizesSqroot(n int64) rsync.SumHead     { return rsynccommon.SumSizesSqroot(n) }
+func Checksum1(buf []byte) uint32             { return rsyncchecksum.Checksum1(buf) }
+func Checksum2(seed int32, buf []byte) []byte { return rsyncchecksum.Checksum2(seed, buf) }
+func Tag(sum uint32) uint16                   { return rsyncchecksum.Tag(sum) }
+func SumSizesSqroot(n int64) rsync.SumHead    { return rsynccommon.SumSizesSqroot(n) }
 
 // ---- in-memory file source for the sender ----
 
@@ -213,4 +213,31 @@ func ReceiveFileList(o FlistOpts, wire []byte) (entries []FileEntry, users, grou
 		groups = append(groups, IdName{id, m.Name})
 	}
 	return entries, users, groups, rt.IOErrors, consumed, nil
+}
+
+// GenerateSums runs the real generateAndSendSums over data and returns the
+// bytes written (checksum header and block checksums).
+func GenerateSums(seed int32, data []byte) ([]byte, error) {
+	f, err := os.CreateTemp("", "verif-gensums-")
+	if err != nil {
+		return nil, err
+	}
+	defer os.Remove(f.Name())
+	defer f.Close()
+	if _, err := f.Write(data); err != nil {
+		return nil, err
+	}
+	if _, err := f.Seek(0, io.SeekStart); err != nil {
+		return nil, err
+	}
+	var buf bytes.Buffer
+	rt := &receiver.Transfer{
+		Logger: log.New(io.Discard),
+		Conn:   &rsyncwire.Conn{Reader: bytes.NewReader(nil), Writer: &buf},
+		Seed:   seed,
+	}
+	if err := rt.VerifGenerateAndSendSums(f, int64(len(data))); err != nil {
+		return nil, err
+	}
+	return buf.Bytes(), nil
 }
